@@ -71,13 +71,18 @@ FreshSess == [used |-> FALSE, conn |-> FALSE, upging |-> FALSE, upged |-> FALSE,
 (*   dev    set of deviations that fired                                   *)
 (*   cause  [Sid -> first end cause]   rcvd [Sid -> Seq(client messages     *)
 (*   accepted)]   endt [Sid -> time of close]                               *)
+(*   hs     [Sid -> how the session came to be on websocket: "none",        *)
+(*          "probed" (PING probe answered), "upgraded" (then UPGRADE),      *)
+(*          "fresh" (opened as websocket)]                                  *)
+(*   rejd   sessions whose connect handler rejected the connection          *)
 (***************************************************************************)
 
 InitG == [ss |-> [s \in Sid |-> FreshSess], table |-> {},
           ev |-> [s \in Sid |-> <<>>], sent |-> [s \in Sid |-> 0],
           deliv |-> [s \in Sid |-> <<>>], hq |-> <<>>, pstart |-> [s \in Sid |-> 0],
           out |-> <<>>, exc |-> "none", dev |-> {}, cause |-> [s \in Sid |-> "none"],
-          rcvd |-> [s \in Sid |-> <<>>], endt |-> [s \in Sid |-> None]]
+          rcvd |-> [s \in Sid |-> <<>>], endt |-> [s \in Sid |-> None],
+          hs |-> [s \in Sid |-> "none"], rejd |-> {}]
 
 NoWs == [st |-> "none", rid |-> 0, dl |-> None]
 
@@ -234,7 +239,7 @@ OpenPolling(outcome, hsend) ==
        IN /\ nreq' = rid
           /\ mon' = MonStart(mon)
           /\ IF outcome = "reject"
-             THEN g' = Resp([g5 EXCEPT !.table = @ \ {s}], rid, 401, <<>>)
+             THEN g' = Resp([g5 EXCEPT !.table = @ \ {s}, !.rejd = @ \cup {s}], rid, 401, <<>>)
              ELSE LET g6 == [g5 EXCEPT !.ss[s].conn = TRUE]
                       d == Drain(g6.ss[s].q)
                       g7 == DoDrain(g6, s)
@@ -259,12 +264,13 @@ OpenWs(outcome, hsend) ==
        IN /\ nreq' = rid
           /\ mon' = MonStart(mon)
           /\ IF outcome = "reject"
-             THEN /\ g' = Resp([g5 EXCEPT !.table = @ \ {s}], rid, 499, <<>>)
+             THEN /\ g' = Resp([g5 EXCEPT !.table = @ \ {s}, !.rejd = @ \cup {s}], rid, 499, <<>>)
                   /\ UNCHANGED <<wsr, wsw>>
              ELSE IF ~WsAvailable
              THEN /\ g' = Resp(g5, rid, 499, <<>>)
                   /\ UNCHANGED <<wsr, wsw>>
-             ELSE /\ g' = Out([g5 EXCEPT !.ss[s].conn = TRUE, !.ss[s].upged = TRUE],
+             ELSE /\ g' = Out([g5 EXCEPT !.ss[s].conn = TRUE, !.ss[s].upged = TRUE,
+                                          !.hs[s] = "fresh"],
                               [k |-> "wsacc", s |-> s])
                   /\ wsr' = [wsr EXCEPT ![s] = [st |-> "read", rid |-> rid,
                                                 dl |-> IF ImplWsReadTimeout
@@ -332,7 +338,10 @@ PostReq(s, body) ==
                       /\ UNCHANGED joiners
                  ELSE /\ g' = Resp([g0 EXCEPT !.table = @ \ {s}], rid, 400, <<>>)
                       /\ UNCHANGED joiners
-             ELSE IF body = <<"GARBAGE">> THEN
+             ELSE IF body = <<"GARBAGE">> \/ body = <<"EMPTYBODY">>
+                     \/ (Len(body) = 1 /\ Len(body[1]) > 7 /\ SubSeq(body[1], 1, 7) = "TOOMANY") THEN
+                 \* undecodable, empty, or more packets than the per-payload limit: refused as a
+                 \* whole, no packet is acted upon
                  /\ g' = Resp(g0, rid, 200, <<>>) /\ UNCHANGED joiners
              ELSE
                  LET g1 == IF body = <<"OVERSIZE">> THEN [g0 EXCEPT !.exc = "toolong"]
@@ -370,7 +379,8 @@ UpgradeReq(s) ==
              ELSE IF ~WsAvailable THEN
                  /\ g' = Resp(g0, rid, 499, <<>>) /\ UNCHANGED <<wsr, wsin, wsgone>>
              ELSE
-                 /\ g' = Out([g0 EXCEPT !.ss[s].upging = TRUE], [k |-> "wsacc", s |-> s])
+                 /\ g' = Out([g0 EXCEPT !.ss[s].upging = TRUE, !.hs[s] = "none"],
+                             [k |-> "wsacc", s |-> s])
                  /\ wsr' = [wsr EXCEPT ![s] = [st |-> "probe", rid |-> rid, dl |-> None]]
                  /\ wsin' = [wsin EXCEPT ![s] = <<>>]
                  /\ wsgone' = [wsgone EXCEPT ![s] = FALSE]
@@ -510,7 +520,7 @@ ReaderProbe(s) ==
     /\ LET f == IF wsin[s] # <<>> THEN Head(wsin[s]) ELSE "DROP"
        IN /\ wsin' = [wsin EXCEPT ![s] = IF @ # <<>> THEN Tail(@) ELSE @]
           /\ IF f = "PINGprobe" THEN
-                 /\ g' = Put(WsOut(g, s, "PONGprobe"), s, "NOOP")
+                 /\ g' = Put(WsOut([g EXCEPT !.hs[s] = "probed"], s, "PONGprobe"), s, "NOOP")
                  /\ wsr' = [wsr EXCEPT ![s].st = "upg"]
              ELSE IF f = "DROP" /\ "AsyncProbeVanishLeavesUpgrading" \in Deviations THEN
                  /\ g' = ReapIfClosed(
@@ -536,7 +546,8 @@ ReaderUpg(s) ==
     /\ LET f == IF wsin[s] # <<>> THEN Head(wsin[s]) ELSE "DROP"
        IN /\ wsin' = [wsin EXCEPT ![s] = IF @ # <<>> THEN Tail(@) ELSE @]
           /\ IF f = "UPGRADE" THEN
-                 /\ g' = [g EXCEPT !.ss[s].upged = TRUE, !.ss[s].upging = FALSE]
+                 /\ g' = [g EXCEPT !.ss[s].upged = TRUE, !.ss[s].upging = FALSE,
+                                   !.hs[s] = IF @ = "probed" THEN "upgraded" ELSE "BROKEN"]
                  /\ wsr' = [wsr EXCEPT ![s].st = "read", ![s].dl = ReadDl]
                  /\ wsw' = [wsw EXCEPT ![s] = "new"]
              ELSE IF Undecodable(f) /\ "HandshakeGarbageLeavesUpgrading" \in Deviations THEN
